@@ -9,6 +9,8 @@ use crate::spec::{self, PType};
 pub enum Expect {
     /// all three front-ends return an error with this normalised text
     All(String),
+    /// no prediction: the frame is only judged by the reference grammar (C04); C20 skips it
+    RefOnly,
     /// an inner field runs past the end of the frame: strict poll decoder says
     /// InvalidRemainingLength, blocking says Ok(None), async says is_eof()
     Crossing,
@@ -143,6 +145,18 @@ pub fn enumerate(a: &Ast, fam: Fam) -> Vec<Mal> {
                 });
             }
         }
+        // protocol names of other lengths (0..=12 bytes), spelled into a re-encoded CONNECT
+        for nm in ["", "M", "MQT", "MQTTT", "MQIsd", "MQIsdpX", "MQTT-SN", "MQTTMQTT", "MQIsdpv3", "MQTT 3.1.1", "MQIsdpMQIsdp"] {
+            let mut b = (**c).clone();
+            b.proto_name = Bs::s(nm);
+            let f = refcodec::ref_encode(&Ast::Connect(Box::new(b)), fam, &st).bytes;
+            out.push(Mal {
+                name: "protocol-name-length",
+                site: format!("{nm:?}"),
+                frame: f,
+                expect: Expect::All(format!("InvalidProtocol({nm:?}, {})", c.level)),
+            });
+        }
         for s in spans_of(SK::ProtoName) {
             for i in 0..s.len {
                 let mut f = e.bytes.clone();
@@ -215,6 +229,54 @@ pub fn enumerate(a: &Ast, fam: Fam) -> Vec<Mal> {
         let mut b = a.clone();
         if crate::gen::split_codepoint(&mut b) {
             out.push(Mal { name: "split-codepoint", site: String::new(), frame: refcodec::ref_encode(&b, fam, &st).bytes, expect: Expect::All("InvalidString".into()) });
+        }
+    }
+    // 12c. payload flagged as UTF-8 that is not (PUBLISH payload; will payload)
+    if v5 {
+        let flagged = |p: &Props| p.iter().any(|(id, v)| *id == 0x01 && *v == PVal::Byte(1));
+        if let Ast::Publish { props, payload, .. } = a {
+            if flagged(props) && !payload.is_empty() {
+                for s in spans_of(SK::Payload) {
+                    for (i, b) in [(0usize, 0x80u8), (s.len / 2, 0xFF), (s.len - 1, 0xE4), (s.len - 1, 0xBF)] {
+                        let mut f = e.bytes.clone();
+                        f[s.off + i] = b;
+                        if std::str::from_utf8(&f[s.off..s.off + s.len]).is_ok() {
+                            continue;
+                        }
+                        out.push(Mal { name: "payload-not-utf8", site: format!("publish+{i}={b:#04x}"), frame: f, expect: Expect::All("InvalidPayloadFormat".into()) });
+                    }
+                }
+            }
+        }
+        if let Ast::Connect(c) = a {
+            if let Some(w) = &c.will {
+                if flagged(&w.props) {
+                    // the will payload is the BinBody that follows the will topic
+                    let topic_end = e.spans.iter().find(|x| x.kind == SK::TopicName).map(|x| x.off + x.len);
+                    if let Some(bin) = e.spans.iter().find(|x| x.kind == SK::BinBody && Some(x.off) == topic_end.map(|t| t + 2) && x.len > 0) {
+                        for (i, b) in [(0usize, 0x80u8), (bin.len - 1, 0xE4), (bin.len / 2, 0xFF)] {
+                            let mut f = e.bytes.clone();
+                            f[bin.off + i] = b;
+                            if std::str::from_utf8(&f[bin.off..bin.off + bin.len]).is_ok() {
+                                continue;
+                            }
+                            out.push(Mal { name: "payload-not-utf8", site: format!("will+{i}={b:#04x}"), frame: f, expect: Expect::All("InvalidPayloadFormat".into()) });
+                        }
+                    }
+                    // the same at the maximum length a will payload can have, ending inside a character
+                    let mut b = (**c).clone();
+                    let mut pl = vec![b'a'; 65_535];
+                    pl[65_533] = 0xE4;
+                    pl[65_534] = 0xBD;
+                    b.will.as_mut().unwrap().payload = Bs(pl);
+                    out.push(Mal {
+                        name: "payload-not-utf8",
+                        site: "will: 65,535 bytes ending inside a character".into(),
+                        frame: refcodec::ref_encode(&Ast::Connect(Box::new(b)), fam, &st).bytes,
+                        expect: Expect::All("InvalidPayloadFormat".into()),
+                    });
+                }
+            }
         }
     }
     // 13. wildcard / NUL in a topic name
@@ -402,6 +464,37 @@ pub fn enumerate(a: &Ast, fam: Fam) -> Vec<Mal> {
             out.push(Mal { name: "empty-subscription", site: String::new(), frame: refcodec::ref_encode(&b, fam, &st).bytes, expect: Expect::All("EmptySubscription".into()) });
         }
         _ => {}
+    }
+    // 23a. remaining length declared smaller than the fixed part of the body while the body bytes
+    // are all there: the packet types that account for their remaining length must say so
+    {
+        let accounts = if v5 { matches!(t, 3 | 8 | 9 | 10 | 11) } else { matches!(t, 3 | 8 | 9 | 10) };
+        // PUBLISH needs its topic length prefix (2 bytes), the others their packet identifier
+        if accounts && canon.bytes.len() - canon.header_len >= 2 {
+            for k in [0u8, 1] {
+                let mut f = vec![canon.bytes[0], k];
+                f.extend_from_slice(&canon.bytes[canon.header_len..]);
+                // PUBLISH with an empty topic and declared length 0/1: topic prefix alone is 2 bytes
+                out.push(Mal { name: "remaining-length-too-small", site: format!("declared={k}"), frame: f, expect: Expect::All("InvalidRemainingLength".into()) });
+            }
+        }
+    }
+    // 23b. the frame cut at every field boundary and re-framed (complete frames, minimal
+    // integers): judged by the reference grammar only
+    {
+        let mut cuts: Vec<usize> = canon.spans.iter().map(|s| s.off).filter(|o| *o > canon.header_len && *o < canon.bytes.len()).collect();
+        cuts.sort_unstable();
+        cuts.dedup();
+        for c in sample(cuts, 12) {
+            out.push(Mal { name: "cut-at-field-boundary", site: format!("@{c}"), frame: refr(canon.bytes[0], &canon.bytes[canon.header_len..c]), expect: Expect::RefOnly });
+        }
+        // and the spelled-out form cut likewise (reason code without property length etc.)
+        let mut cuts2: Vec<usize> = e.spans.iter().map(|s| s.off).filter(|o| *o > hl && *o < e.bytes.len()).collect();
+        cuts2.sort_unstable();
+        cuts2.dedup();
+        for c in sample(cuts2, 8) {
+            out.push(Mal { name: "cut-at-field-boundary", site: format!("spelled@{c}"), frame: refr(e.bytes[0], &e.bytes[hl..c]), expect: Expect::RefOnly });
+        }
     }
     // 23. remaining length shortened so that the last inner field crosses the frame end
     if let Some(last) = canon.spans.iter().filter(|s| s.len > 0).max_by_key(|s| s.off + s.len) {
